@@ -194,6 +194,13 @@ theorem etherOfPduType_lt (t : String) : Tags.etherOfPduType t < 65536 := by
     have hall : ∀ q ∈ Gen.Tags.pduTypeToEther, q.2 < 65536 := by decide
     exact hall p hm
 
+theorem etherTagOf_lt (i : LayerInfo) : etherTagOf i < 65536 := by
+  unfold etherTagOf
+  dsimp only
+  split
+  · split <;> decide
+  · exact etherOfPduType_lt _
+
 /-- a header-only layer: `write` replaces the first `n` bytes by `hb` (`hb.length = n`) -/
 theorem writesOnly_of_writeAtStart (name : String) (n : Nat) (w : Bytes → Out Bytes) (hb : Bytes) (hl : hb.length = n)
     (hw : ∀ region, w region = writeAtStart region hb) :
